@@ -155,6 +155,29 @@ def _worker(chunk):
     return st
 
 
+def _replay_sigs(case):
+    chk = Stats()
+    try:
+        _MOD.run_case(case, chk)
+    except Exception:  # noqa: BLE001
+        pass
+    return [x["signature"] for x in chk.violations]
+
+
+def _in_child(fn, arg):
+    """fn(arg) in a forked child (a crash of the tree under test must not take the runner down); None if it died."""
+    from . import kernel
+    r = kernel.forkmap(fn, [arg], 1, strict=False)[0]
+    return None if isinstance(r, kernel.WorkerDied) else r
+
+
+def _det_digests(case):
+    a, b = Stats(), Stats()
+    _MOD.run_case(case, a)
+    _MOD.run_case(case, b)
+    return a.digest(), b.digest()
+
+
 def _fresh_replay(pid, path):
     import subprocess
     try:
@@ -219,11 +242,11 @@ def run_check(pid, tier, seed, jobs, replay=None):
         return 3
     # determinism self-check: the first cases twice, in this process
     for i, case in enumerate(cases[:getattr(mod, "DETERMINISM_CASES", 2)]):
-        a, b = Stats(), Stats()
-        mod.run_case(case, a)
-        mod.run_case(case, b)
-        _HIST.extend([i, i])
-        if a.digest() != b.digest():
+        d = _in_child(_det_digests, case)
+        if d is None:
+            print(f"HARNESS-ERROR the interpreter died running case {case!r}")
+            return 3
+        if d[0] != d[1]:
             print(f"HARNESS-ERROR nondeterministic case {case!r}")
             return 3
 
@@ -232,11 +255,15 @@ def run_check(pid, tier, seed, jobs, replay=None):
     if jobs <= 1 or len(cases) < 4:
         total.merge(_worker(indexed))
     else:
-        nchunks = min(len(cases), jobs * 6)
+        nchunks = min(len(cases), jobs * 4)
         chunks = [indexed[i::nchunks] for i in range(nchunks)]
-        ctx = multiprocessing.get_context("fork")
-        with ctx.Pool(jobs) as pool:
-            for st in pool.imap(_worker, chunks):
+        from . import kernel
+        for st in kernel.forkmap(_worker, chunks, jobs, strict=False):
+            if isinstance(st, kernel.WorkerDied):
+                # the tree under test killed the interpreter (stack or memory exhaustion): that part is not covered
+                total.count("WORKER-DIED", 1)
+                total.caps.append(f"a worker process died (exit code {st.code}): its cases are not covered")
+            else:
                 total.merge(st)
     if hasattr(mod, "run_main"):
         # parts that manage their own worker pool (level-synchronous parallel BFS)
@@ -244,6 +271,7 @@ def run_check(pid, tier, seed, jobs, replay=None):
             mod.run_main(tier, seed, jobs, total)
         except simenv.HarnessError as e:
             total.count("HARNESS:" + str(e)[:300])
+    died = total.counters.get("WORKER-DIED", 0)
     harness = [k for k in total.counters if k.startswith("HARNESS:")]
     if not harness and hasattr(mod, "finish"):
         try:
@@ -275,12 +303,8 @@ def run_check(pid, tier, seed, jobs, replay=None):
             with open(path, "w") as f:
                 json.dump({"property": pid, "signature": sig, "case": v["case"], "expected": v["expected"],
                            "observed": v["observed"], "tier": tier, "seed": seed}, f, indent=1, default=repr)
-            chk = Stats()
-            try:
-                mod.run_case(json.load(open(path))["case"], chk)
-            except Exception:  # noqa: BLE001
-                pass
-            if any(x["signature"] == sig for x in chk.violations) or (n < 2 and _reproduce_with_history(pid, path, v, cases)):
+            sigs = _in_child(_replay_sigs, json.load(open(path))["case"]) or []
+            if sig in sigs or (n < 2 and _reproduce_with_history(pid, path, v, cases)):
                 believed = v
                 break
         if believed is None:
@@ -297,6 +321,9 @@ def run_check(pid, tier, seed, jobs, replay=None):
             rc = 1
             print(f"VIOLATION property={pid} replay={path}")
             print(f"  signature={sig} expected={v['expected']!r} observed={v['observed']!r}")
+    if died and not n_new:
+        print(f"HARNESS-ERROR {died} worker process(es) died and no violation was established: nothing is claimed")
+        return 3
     if unreproduced:
         for sig in unreproduced[:5]:
             print(f"UNREPRODUCED signature={sig} (observed once, did not recur from its replay file: not counted)")
